@@ -66,6 +66,8 @@ func init() {
 }
 
 func runC17(p *chk.Prog, r *chk.Report) {
+	// what is requested is what is encoded: prefix length and bytes agree (PREFIX-AGREE, shared with C16)
+	c16Prefix(p, r)
 	c17RoundAtomic(p, r)
 	// what Set accepts the encoders can encode (VALIDATED, shared with C16): otherwise the session aborts and reconnects forever
 	c16Validated(p, r)
@@ -78,6 +80,7 @@ func runC17(p *chk.Prog, r *chk.Report) {
 	c17Pending(p, r)
 	c17Diff(p, r)
 	c17StaleAlias(p, r)
+	setReadonlyRule(p, r)
 	// the requested timers are never overwritten by what one connection negotiated (PARAMS-READONLY, shared with C16)
 	c16ParamsReadonly(p, r)
 	// the peer's capabilities are read to the end of the OPEN (READ-TO-END, shared with C16)
@@ -1005,5 +1008,91 @@ func c17StaleAlias(p *chk.Prog, r *chk.Report) {
 	}
 	if n == 0 {
 		x.OK("no-local-copies-of-the-sets", 0, "")
+	}
+}
+
+// setReadonlyRule (C17, shared with C05): the advertisements handed to Session.Set belong to the caller, who hands the
+// very same objects to the sessions of all peers (bgpController.publishAds). A session reads them - it validates, copies
+// the pointers, compares - and never stores through them: a field "normalised" for one peer (LOCAL_PREF cleared for an
+// eBGP session) is changed for every other session that holds the pointer.
+func setReadonlyRule(p *chk.Prog, r *chk.Report) {
+	x := r.Rule("SET-READONLY", "D ownership (effects)", "in the Set method of the native, frr and frr-k8s sessions nothing is stored through the advertisements received (no assignment, ++/--, append-assign or in-place sort whose target is reached from an element of the variadic parameter)", 3)
+	for _, pkg := range []string{natPkg, frrPkg, fk8Pkg} {
+		f := p.LookupFunc(pkg, "session", "Set")
+		if f == nil || f.Body == nil {
+			x.Undecided("anchor:"+pkg+".(session).Set", "UNDECIDED anchor missing: "+pkg+".(session).Set")
+			continue
+		}
+		r.Saw(f)
+		g := f.Graph()
+		advs := isParamIdx(f, 0)
+		fromAdvs := func(e ast.Expr) bool {
+			root := ast.Unparen(e)
+			for i := 0; i < 8; i++ {
+				switch v := root.(type) {
+				case *ast.SelectorExpr:
+					root = ast.Unparen(v.X)
+					continue
+				case *ast.IndexExpr:
+					if advs(v.X) {
+						return true
+					}
+					root = ast.Unparen(v.X)
+					continue
+				case *ast.StarExpr:
+					root = ast.Unparen(v.X)
+					continue
+				}
+				break
+			}
+			id, isId := root.(*ast.Ident)
+			if !isId {
+				return false
+			}
+			for _, rs := range f.RangeLoops(advs) {
+				if rangeVal(f, rs)(id) {
+					return true
+				}
+			}
+			// a local copy of an element pointer
+			if d := f.LocalDef(id); d != nil {
+				if ix, isIx := ast.Unparen(d).(*ast.IndexExpr); isIx && advs(ix.X) {
+					return true
+				}
+				if did, isD := ast.Unparen(d).(*ast.Ident); isD {
+					for _, rs := range f.RangeLoops(advs) {
+						if rangeVal(f, rs)(did) {
+							return true
+						}
+					}
+				}
+			}
+			return false
+		}
+		bad := token.NoPos
+		chk.InspectNoLit(f.Body, func(n ast.Node) bool {
+			switch v := n.(type) {
+			case *ast.AssignStmt:
+				for _, l := range v.Lhs {
+					if _, isId := ast.Unparen(l).(*ast.Ident); isId {
+						continue
+					}
+					if fromAdvs(l) {
+						bad = v.Pos()
+					}
+				}
+			case *ast.IncDecStmt:
+				if _, isId := ast.Unparen(v.X).(*ast.Ident); !isId && fromAdvs(v.X) {
+					bad = v.Pos()
+				}
+			}
+			return true
+		})
+		_ = g
+		pos := f.Pos()
+		if bad.IsValid() {
+			pos = bad
+		}
+		x.Check(pkg+":Set:advertisements-not-written", pos, !bad.IsValid(), "", "Set stores through an advertisement it was handed: the same object is held by the sessions of the other peers (and by the controller), which now send / compare the changed value")
 	}
 }
